@@ -1,5 +1,8 @@
 """Thin access layer to the system under test plus option-set generation."""
 import ast
+import os
+import signal
+import threading
 import warnings
 
 from hypothesis import strategies as st
@@ -34,10 +37,50 @@ def kwargs(opts, **extra):
     return kw
 
 
+class MinifyTimeout(BaseException):
+    """python_minifier did not return within the CPU/wall bound (a harness guard, never reported as a property violation)."""
+
+
+MINIFY_SECONDS = float(os.environ.get('VERIF_MINIFY_SECONDS', '60'))
+_timeouts = [0]
+
+
+class time_limit(object):
+    """Wall-clock guard around a call into the system under test (main thread only). After three expiries in one process the
+    run is aborted as a harness error: a change that makes the minifier loop forever must not turn a check into a silent hang."""
+
+    def __init__(self, seconds=None):
+        self.seconds = seconds or MINIFY_SECONDS
+        self.armed = False
+
+    def _expired(self, signum, frame):
+        _timeouts[0] += 1
+        raise MinifyTimeout('no result after %.0f s' % self.seconds)
+
+    def __enter__(self):
+        if _timeouts[0] >= 3:
+            raise RuntimeError('python_minifier did not return within %.0f s on three inputs in this process: giving up (harness error)' % self.seconds)
+        if threading.current_thread() is threading.main_thread():
+            try:
+                self.old = signal.signal(signal.SIGALRM, self._expired)
+                self.old_timer = signal.setitimer(signal.ITIMER_REAL, self.seconds)
+                self.armed = True
+            except ValueError:
+                pass
+        return self
+
+    def __exit__(self, *exc):
+        if self.armed:
+            signal.setitimer(signal.ITIMER_REAL, 0)
+            signal.signal(signal.SIGALRM, self.old)
+        return False
+
+
 def minify(src, opts=None, **extra):
     with warnings.catch_warnings():
         warnings.simplefilter('ignore')
-        return python_minifier.minify(src, **kwargs(opts or DEFAULTS, **extra))
+        with time_limit():
+            return python_minifier.minify(src, **kwargs(opts or DEFAULTS, **extra))
 
 
 def parse(src):
